@@ -7,29 +7,90 @@ LC_NOTE = ("Trusted: shim contracts for tokio mpsc/select!/task-local (A1,A3,A5)
            "by one event per call, extraction rules R1-R11 (diff per function in build/<fs>/extraction_report.json), Verus/Z3. "
            "Panics (unwinding) are Rust/tokio semantics (A6,A7) and not decided.")
 
+SEND_NOTE = ("Trusted: shim contracts for tokio mpsc/oneshot/timeout (A1,A2,A4,A5: linearizable FIFO, send Ok iff enqueued, cancel-safe send, "
+             "timeout polls inner first), effect-log model of suspension points (rule T), extraction rules, Verus/Z3. The composition from per-call "
+             "relations + lifecycle monitor to the whole-history statement (lemma L1 of DESIGN) is argued in DESIGN.md section 3, not machine-checked.")
 CLAIMS = {
+    "C01": dict(
+        text="Per-function obligations that together give exactly-once: tell/ask/*_with_timeout/stop each make exactly one waiting enqueue attempt on the one "
+             "mailbox, return Ok iff accepted, and a timed-out tell has enqueued nothing (rule T cut); every envelope embeds a strong reference (mpsc send "
+             "precondition); the lifecycle monitor accepts Handled(id) only for the envelope just taken, exactly once, and leaves the loop only through a cause. "
+             "Discharged by Verus for all inputs and all loop iterations.",
+        note=SEND_NOTE),
+    "C02": dict(
+        text="Frame clauses of every send relation: the only Enq/Rejected effect is on mailbox(self) - one queue for tell, ask, blocking and stop, no spawn per "
+             "send, no try_send; stop is an in-band marker in that queue; the monitor requires the handler to run inline before the next poll. Order then follows from FIFO (A1).",
+        note=SEND_NOTE),
+    "C03": dict(
+        text="handle_message: exactly one reply attempt on this request carrying the value returned by this handler call, no on_tell_result on the ask path and exactly "
+             "one on the tell path; ask: Ok(v) only with the value received on the request id created in this call, Receive only when the reply sender was dropped; "
+             "ask_join awaits the very handle ask returned. The never-hangs half is liveness: only its safety core (receiver closed or dropped on every exit) is decided.",
+        note=SEND_NOTE + " Hang-freedom additionally rests on A5 (close-on-drop) and Rust drop semantics."),
     "C04": dict(
-        text="run_actor_lifecycle (extracted from src/actor.rs every run) satisfies the safety-monitor postcondition for all "
-             "iterations and all hook outcomes: on_start once and first, on_stop at most once and last, only for the five causes, "
-             "killed iff a signal was consumed; loop invariant discharged by Verus, no bound.",
+        text="run_actor_lifecycle (extracted from src/actor.rs every run) satisfies the safety-monitor postcondition for all iterations and all hook outcomes: on_start once "
+             "and first, on_stop at most once and last, only for the five causes, killed iff a signal was consumed; with deadlock-detection every hook runs inside the task-local scope.",
         note=LC_NOTE),
     "C05": dict(
-        text="The ActorResult returned by run_actor_lifecycle is tied by postcondition to the monitor history (variant, phase, killed, the very "
-             "error value, the actor instance the hooks ran on); accessor laws of ActorResult are postconditions proved for every T.",
+        text="The ActorResult returned by run_actor_lifecycle is tied by postcondition to the monitor history (variant, phase, killed, the very error value, the actor instance "
+             "the hooks ran on); the 14 accessor laws and the tuple conversion of ActorResult are postconditions proved for every T.",
         note=LC_NOTE),
     "C06": dict(
-        text="Monitor rule: a handler runs only in a pass whose control-channel poll was pending and on_stop(true) follows a consumed signal directly; "
-             "kill() contract: no suspension, one try_send on the control channel, Ok for Ok/Full/Closed.",
+        text="kill(): no suspension point, exactly one try_send on the control channel, Ok for Ok/Full/Closed, no mailbox effect (R_kill, also through ActorControl). Monitor: a "
+             "handler runs only in a pass whose control poll was pending; on_stop(true) follows a consumed signal directly; spawn wires the control receiver polled first to the ref's control sender.",
         note=LC_NOTE),
+    "C07": dict(
+        text="The lifecycle gives up its own strong reference before the loop (ghost ownership flag, loop invariant); downgrade/clone/upgrade and all type-erased conversions "
+             "preserve the designated actor (HandleView) and weak handles are built from WeakSenders only; upgrade is Some iff both senders upgrade; the monitor has no path to on_stop except the five causes.",
+        note=LC_NOTE + " Implicit drops of user-held references and tokio's sender counting (A4) are assumed."),
     "C08": dict(
-        text="Monitor rules on Poll(Idle)/RunDone discharged for all iterations: on_run polled only after pending control and mailbox polls, never after Ok(false), "
+        text="Monitor rules on Poll(Idle)/RunDone discharged for all iterations: on_run polled only after pending control and mailbox polls of the same pass, never after Ok(false), "
              "Err leads to on_stop(false) and Failed.",
         note=LC_NOTE),
+    "C09": dict(
+        text="spawn_with_mailbox_capacity returns only for n>0 and creates the mailbox with exactly n and the control channel with exactly 1; spawn uses the configured cell value else 32 "
+             "(the constant is checked); set_default_mailbox_capacity rejects 0, succeeds exactly once and stores exactly its argument; all async send paths use the waiting send.",
+        note="The bound itself and 'waits only when full' are tokio's (A1). " + SEND_NOTE),
+    "C10": dict(
+        text="Rule T contracts on tell_with_timeout / ask_with_timeout (and their erased forwarders): inner outcomes pass through unchanged with no extra dead letter, Err(Timeout{self.id, d, op}) "
+             "exactly on the Elapsed branch with the caller's d; is_retryable == (self is Timeout). Deadline punctuality (never early / by the deadline) is tokio's timer (A8) and is not decided.",
+        note=SEND_NOTE),
+    "C11": dict(
+        text="Identity: spawn allocates the id by one atomic fetch_add(1) (freshness via a monotone floor, stable under interference) with type_name::<T>(); every constructor, clone, "
+             "downgrade, upgrade and erased conversion copies id and channels (HandleView equality); is_alive / weak is_alive / upgrade are exactly the channel reads the property names.",
+        note="fetch_add atomicity and fewer than 2^64 spawns (A10); channel closed/strong-count semantics (A1, A4). " + SEND_NOTE),
+    "C12": dict(
+        text="Framework-state half only: every panic site is reached with the wait-for lock released, WaitForGuard::drop contains no reachable panic and tolerates poisoning, the lock is never "
+             "re-entered, hooks are called without the lock, and every function under contract has a frame clause over the global cells (id allocator, dead-letter counter, capacity cell, graph).",
+        note="Task isolation, crash-point enumeration and 'on_stop not run after a panic' rest on A6/A7 (Rust unwinding, tokio tasks) and are not decided."),
+    "C13": dict(
+        text="record() logs exactly one dead letter with its arguments unchanged and bumps the counter by exactly one (test-utils); every send relation contains no dead letter on success and "
+             "exactly one on failure with (self.id, M, reason matching the error, the operation label); timeout wrappers add one Timeout dead letter only on the Elapsed branch.",
+        note="blocking_*_with_timeout_impl (thread + nested runtime) are not under contract. " + SEND_NOTE),
+    "C14": dict(
+        text="has_path is proved sound and complete against graph reachability (completeness by a machine-checked pigeonhole lemma, unbounded); ask returns normally only if caller != callee and no chain "
+             "callee->caller existed in the graph seen under the single lock acquisition in which the edge is then inserted; all four hooks run inside the task-local scope; erased and timeout asks delegate to ask.",
+        note="'No participant waits forever' is liveness and is not decided; format_cycle_path (message text) is not under contract."),
+    "C15": dict(
+        text="Residue: on every exit of ask (and under cancellation by timeout) the guard removes exactly the caller's edge, WaitForGuard::drop removes exactly its key; untracked callers never touch the graph. "
+             "Soundness obligation (panic only for a chain of unanswered asks) is NOT dischargeable on this tree: genuine defect, listed in known_findings.txt; every other C15 obligation is discharged.",
+        note="One known finding (stale wait-for edge, DESIGN.md section 5)."),
+    "C16": dict(
+        text="Every method of the six erased traits carries the same named relation as the inherent operation over target(); each impl (and each lifted clone_boxed/downgrade/upgrade/From/Clone) is verified against it.",
+        note="dyn dispatch and Box<dyn _> coercion are rustc's; the dispatchers for lifted methods are trusted glue. " + SEND_NOTE),
+    "C17": dict(
+        text="No-timeout blocking variants satisfy the async relations with blocking_send/blocking_recv and the blocking_* labels; dispatch sends Some(d) to the timeout implementation with d and None to the "
+             "no-timeout one; deprecated aliases equal blocking_*(msg, None) whatever timeout they get.",
+        note="blocking_*_with_timeout_impl (std::thread::spawn, nested runtime, std mpsc) is NOT under contract: deadline behaviour and callability inside a runtime are unverified."),
+    "C18": dict(
+        text="All contracts of the feature-independent properties are re-discharged on the text extracted under each feature subset (quick: 6 subsets, thorough: all 16): the same relations and the same "
+             "monitor postcondition hold, i.e. feature-gated code only adds effects the relations do not constrain.",
+        note="Shows contract preservation, not full trace equality; spans/log macros are dropped by R1/R3 (A9); cfg resolution by the extractor is assumed to mirror rustc's."),
+    "C20": dict(
+        text="Lifecycle: exactly one guard opened before and one record after each handled envelope, none otherwise (metrics monitor, all iterations); record_message adds exactly 1, saturating total, raises max "
+             "and preserves total <= count*max, hence avg <= max; snapshot/accessors read the same cells; clone/downgrade/upgrade share the collector.",
+        note="Single-writer cells (only the actor's loop records), fewer than 2^64 messages, clock values opaque (A11)."),
 }
 
 NOT_CLAIMED = {
-    "C19": "not applicable: proc-macro token generation (syn/quote) is outside every installed deductive verifier; the runtime half is an obligation of handle_message reported under C03",
+    "C19": "not applicable: proc-macro token generation (syn/quote) is outside every installed deductive verifier; the runtime half (on_tell_result exactly once after tell, never after ask) is an obligation of handle_message reported under C03",
 }
-_PENDING = "contracts for this property are not finished yet; no claim is made until its obligations are discharged by ./check"
-for _p in ["C01", "C02", "C03", "C07", "C09", "C10", "C11", "C12", "C13", "C14", "C15", "C16", "C17", "C18", "C20"]:
-    NOT_CLAIMED.setdefault(_p, _PENDING)
